@@ -154,27 +154,8 @@ example : urldecodePath (ofString "/a%00%1f%7f%2e") = ofString "/a___." := by de
     for hosts other than "[...]" literals every '.'-separated label is non-empty -/
 theorem c02_host_single_segment (h h' : Bytes) (hh : hostPolicyPlain true h = some h') :
     slash ∉ h' ∧ Clean (hostPart h') ∧
-    (h'.head? ≠ some 91 → ∀ seg ∈ splitOn dot (hostPart h'), seg ≠ []) := by
-  unfold hostPolicyPlain at hh
-  simp only [if_true] at hh
-  split at hh
-  · obtain ⟨h1, h2⟩ := checkHostnameV6_spec hh
-    refine ⟨h1, ?_, fun hn => absurd h2 hn⟩
-    have hsub := hostPart_subset h'
-    have hhead : (hostPart h').head? = some 91 := by
-      unfold hostPart
-      cases h' with
-      | nil => simp at h2
-      | cons x xs =>
-        simp only [List.head?_cons, Option.some.injEq] at h2
-        subst h2
-        simp [List.takeWhile_cons, colon]
-    refine ⟨?_, ?_, ?_, fun hm => h1 (hsub _ hm)⟩
-    · intro e; simp [e] at hhead
-    · intro e; rw [e] at hhead; simp [segDot, dot] at hhead
-    · intro e; rw [e] at hhead; simp [segDotDot, dot] at hhead
-  · obtain ⟨h1, h2, h3⟩ := checkHostnameV4_clean hh
-    exact ⟨h1, h2, fun _ => h3⟩
+    (h'.head? ≠ some 91 → ∀ seg ∈ splitOn dot (hostPart h'), seg ≠ []) :=
+  hostPolicyPlain_strict_spec hh
 
 example : hostPolicyPlain true (ofString "www.example.org.:8080") = some (ofString "www.example.org:8080") := by
   decide
@@ -317,7 +298,7 @@ theorem c02_request_contained (o : Opts) (lc : Bool) (docroot : Bytes) (isdir : 
     cases ha : authorityOf o 80 rawHost with
     | none => simp [ha] at h
     | some au =>
-      simp only [ha, List.isEmpty_nil, if_true, ServeRes.path.injEq] at h
+      simp only [ha, List.isEmpty_nil, if_true, ServeRes.path.injEq, vhostRoot] at h
       obtain ⟨r, hr, he, _⟩ := c02_docroot_contained lc docroot t.path (c02_uri_path_canonical o target t ht)
       exact ⟨h.2.symm, r, hr, by rw [← h.1, he]⟩
 
